@@ -19,6 +19,10 @@ decides whether
             and is not judged), total size announced correctly (RFC 7959 §2.2, §4);
 * `hang`    when the history ends every call has returned (with a response or an error);
 * `leak`    long after every deadline has passed and both sides have been swept, no reassembly or sending buffer is held;
+* `szx`     block-size negotiation clamps to the smaller side: what a layer puts on the wire while it handles a message
+            that carried a block option never uses a larger size exponent than that option showed, and — RFC 7959 §2.4,
+            "a server MUST use the block size indicated or a smaller size" — is never a body of more bytes than one
+            block of that size (exponent 7, BERT, counts in multiples of 1024 and is not bounded here);
 * `oneway`  a one-way write that reported success, in a history without any fault and with nothing left in flight, has
             brought its body to the peer's application (the one-way style has no other way to "end with an error").
 
@@ -78,6 +82,7 @@ inductive Ev
   | settled (inFlight : Nat)          -- the history is at rest: this many messages are still in flight
   | atRest (held : Nat)               -- long after every deadline, both sides swept: this many cache entries are still held
   | stuck (side : Nat)                -- everything is at rest and the layer of `side` has not finished handling a message
+  | quiet                             -- everything is at rest: whatever is put on the wire from now on answers what arrives from now on
   deriving Repr
 
 inductive Class | request | response | other
@@ -104,6 +109,14 @@ def dataSize (m : Seen) : Option Nat :=
   | .request => m.size1
   | .response => m.size2
   | .other => none
+
+/-- the largest size exponent the block options of a message show (the weakest reading when a message carries both) -/
+def shownSzx (m : Seen) : Option Nat :=
+  match m.block1, m.block2 with
+  | some (a, _, _), some (b, _, _) => some (max a b)
+  | some (a, _, _), none => some a
+  | none, some (b, _, _) => some b
+  | none, none => none
 
 /-- Is handing `m` to an application a delivery of a body? -/
 def isBodyDelivery (m : Seen) : Bool :=
@@ -142,6 +155,7 @@ structure JState where
   wrotes : List (Nat × Nat) := []      -- (side, token) of one-way writes that returned success
   handed : List (Nat × Nat) := []      -- (side, token) of body deliveries
   disturbed : Bool := false
+  asked : Option (Nat × Nat × Nat) := none   -- (side, token, size exponent shown) of the message `side` is handling
   deriving Repr
 
 def bump (cs : List Count) (side tok : Nat) (cls : Class) (ds dd : Nat) : List Count × Count :=
@@ -175,9 +189,28 @@ def judgeEv (s : JState) : Ev → JState × Option String
     match s.wrotes.find? (fun (side, tok) => !s.handed.contains (1 - side, tok)) with
     | some (_, tok) => (s, some s!"oneway: token {tok}: WriteMessage returned success and every message was delivered without a fault, but nothing reached the peer's application")
     | none => (s, none)
+  | .quiet => ({ s with asked := none }, none)
   | .arrive side m =>
+    let s := { s with asked := (shownSzx m).map (fun z => (side, m.tok, z)) }
     if isStart m then ({ s with counts := (bump s.counts side m.tok (classOf m.code) 1 0).1 }, none) else (s, none)
   | .wire side m =>
+    -- negotiation: never larger than the peer showed in the message being handled
+    let tooLarge : Option String :=
+      match s.asked with
+      | none => none
+      | some (sd, tok, z) =>
+        if sd ≠ side ∨ tok ≠ m.tok then none else
+        match shownSzx m with
+        | some e =>
+          if e > z then some s!"szx: token {m.tok}: side {side} answers a message that showed size exponent {z} with size exponent {e}"
+          else if z < 7 ∧ isBodyDelivery m ∧ m.body.len > unit z then
+            some s!"szx: token {m.tok}: side {side} answers a message that showed blocks of {unit z} bytes with a block of {m.body.len} bytes"
+          else none
+        | none =>
+          if z < 7 ∧ isBodyDelivery m ∧ m.body.len > unit z then
+            some s!"szx: token {m.tok}: side {side} answers a message that showed blocks of {unit z} bytes with {m.body.len} bytes and no block option"
+          else none
+    if tooLarge.isSome then (s, tooLarge) else
     -- a data block on the wire must be an aligned slice of what this side's application supplied
     match dataBlock m with
     | none => (s, none)
